@@ -10,7 +10,7 @@
     e2fsck tune2fs asks for, and logs {profile, op, rc, asked, before, after, changed superblock fields, fsck, tree_equal,
     consistent}.  TLC decides per line: rc = 0 => abstract(after) = Effect(op, before), changed fields inside
     AllowedChange(op, before), required fields did change, requested e2fsck succeeded, e2fsck -fn clean, tree equal."""
-import os, sys, json, random, shutil, hashlib, struct, re, stat, itertools, concurrent.futures as cf
+import os, sys, json, random, shutil, hashlib, struct, re, stat, itertools, time, concurrent.futures as cf
 from common import VERIF, fast_tmp, seed, die_broken, NPROC, tool_env
 from common import run as sh
 import build, tlc as T, tracecheck, mkbase
@@ -61,7 +61,7 @@ COMPAT = {0x1: "dir_prealloc", 0x2: "imagic_inodes", 0x4: "has_journal", 0x8: "e
           0x40: "lazy_bg", 0x80: "exclude_bitmap", 0x200: "sparse_super2", 0x400: "fast_commit", 0x800: "stable_inodes", 0x1000: "orphan_file"}
 INCOMPAT = {0x1: "compression", 0x2: "filetype", 0x4: "needs_recovery", 0x8: "journal_dev", 0x10: "meta_bg", 0x40: "extent",
             0x80: "64bit", 0x100: "mmp", 0x200: "flex_bg", 0x400: "ea_inode", 0x1000: "dirdata", 0x2000: "metadata_csum_seed",
-            0x4000: "largedir", 0x8000: "inline_data", 0x10000: "encrypt", 0x20000: "casefold"}
+            0x4000: "large_dir", 0x8000: "inline_data", 0x10000: "encrypt", 0x20000: "casefold"}
 ROCOMPAT = {0x1: "sparse_super", 0x2: "large_file", 0x4: "btree_dir", 0x8: "huge_file", 0x10: "uninit_bg", 0x20: "dir_nlink",
             0x40: "extra_isize", 0x80: "has_snapshot", 0x100: "quota", 0x200: "bigalloc", 0x400: "metadata_csum", 0x800: "replica",
             0x1000: "read-only", 0x2000: "project", 0x4000: "shared_blocks", 0x8000: "verity", 0x10000: "orphan_present"}
@@ -100,14 +100,15 @@ def bits(v, table, kind):
 
 def mntopt_names(v):
     out = []
-    jm = v & 0x60
     for m, n in MNTOPTS.items():
         if m in (0x20, 0x40, 0x60):
             continue
         if v & m:
             out.append(n)
-    if jm:
-        out.append(MNTOPTS[jm])
+    if v & 0x20:
+        out.append("jd")          # the journalling mode is a two-bit field: data = jd, ordered = jo, writeback = jd + jo
+    if v & 0x40:
+        out.append("jo")
     rest = v & ~(0x1 | 0x2 | 0x4 | 0x8 | 0x10 | 0x60 | 0x100 | 0x200 | 0x400 | 0x800)
     if rest:
         out.append("mntopt_%x" % rest)
@@ -178,6 +179,77 @@ def abstract(b):
         "lastcheck": u32(0x40) % (2 ** 31), "mtime": u32(0x2C) % (2 ** 31), "jdev": 1 if (u32(0xE4) or b[0xD0:0xE0] != b"\0" * 16) else 0,
         "metagroups": 1 if (u32(0x60) & 0x10) else 0,
     }
+
+
+def _test_root(a, b):
+    while a > b and a % b == 0:
+        a //= b
+    return a == b
+
+
+def _has_super(g, feats, backup_bgs):
+    if g == 0:
+        return True
+    if "sparse_super2" in feats:
+        return g in backup_bgs
+    if "sparse_super" not in feats or g <= 1:
+        return True
+    if g % 2 == 0:
+        return False
+    return _test_root(g, 3) or _test_root(g, 5) or _test_root(g, 7) or g in (3, 5, 7)
+
+
+def packed_of(path, b):
+    """1 iff some group's block bitmap / inode bitmap / inode table lies outside the group's own block range (what
+    ext2fs_check_desc() rejects once flex_bg is cleared).  Own parser of the group descriptor table."""
+    u32 = lambda o: struct.unpack_from("<I", b, o)[0]
+    u16 = lambda o: struct.unpack_from("<H", b, o)[0]
+    feats = set(bits(u32(0x5C), COMPAT, "c") + bits(u32(0x60), INCOMPAT, "i") + bits(u32(0x64), ROCOMPAT, "r"))
+    bs = 1024 << u32(0x18)
+    is64 = "64bit" in feats
+    blocks = u32(4) + ((u32(0x150) << 32) if is64 else 0)
+    first, bpg, ipg = u32(0x14), u32(0x20), u32(0x28)
+    isz = u16(0x58) if u32(0x4C) >= 1 else 128
+    dsz = u16(0xFE) if is64 and u16(0xFE) >= 64 else 32
+    if not bpg:
+        return 0
+    gdc = (blocks - first + bpg - 1) // bpg
+    dpb = bs // dsz
+    itb = (ipg * isz + bs - 1) // bs
+    bbgs = [u32(0x24C), u32(0x250)]
+    fmb = u32(0x104) if "meta_bg" in feats else None
+    with open(path, "rb") as f:
+        for g in range(gdc):
+            blk_idx = g // dpb
+            if fmb is not None and blk_idx >= fmb:
+                g0 = blk_idx * dpb
+                loc = first + g0 * bpg + (1 if _has_super(g0, feats, bbgs) else 0)
+            else:
+                loc = first + 1 + blk_idx
+            if bs == 1024 and first == 0 and loc <= 1 + blk_idx:
+                loc += 1          # 1 KiB blocks with first_data_block 0 (bigalloc): the superblock occupies block 1
+            f.seek(loc * bs + (g % dpb) * dsz)
+            d = f.read(dsz)
+            if len(d) < dsz:
+                return 0
+            bb, ib, it = struct.unpack_from("<III", d, 0)
+            if dsz >= 64:
+                hb, hi, ht = struct.unpack_from("<III", d, 0x20)
+                bb |= hb << 32; ib |= hi << 32; it |= ht << 32
+            lo = first + g * bpg
+            hi_ = min(lo + bpg, blocks) - 1
+            if not (lo <= bb <= hi_ and lo <= ib <= hi_ and lo <= it and it + itb - 1 <= hi_):
+                return 1
+    return 0
+
+
+def abstract_img(path):
+    b = read_sb(path)
+    if b is None:
+        return None, None
+    a = abstract(b)
+    a["packed"] = packed_of(path, b)
+    return b, a
 
 
 # ------------------------------------------------------------------------------------------------------------------
@@ -345,20 +417,31 @@ def consistent(b, image):
 # ------------------------------------------------------------------------------------------------------------------
 # one request on one image
 # ------------------------------------------------------------------------------------------------------------------
-def meta_changed(img0, img1, bs):
-    """True iff bytes outside the first two filesystem blocks (boot block / primary superblock / first descriptor block) differ."""
-    skip = 2 * bs if bs > 1024 else 2048
-    s0, s1 = os.path.getsize(img0), os.path.getsize(img1)
-    if s0 != s1:
+def meta_changed(img0, img1, sb):
+    """True iff the request rewrote at least one metadata object other than the superblock: bytes differ outside the primary
+    superblock and outside the first block of every group (the backup superblock copies)."""
+    u32 = lambda o: struct.unpack_from("<I", sb, o)[0]
+    bs = 1024 << u32(0x18)
+    first, bpg = u32(0x14), u32(0x20)
+    d0 = open(img0, "rb").read()
+    d1 = open(img1, "rb").read()
+    if len(d0) != len(d1):
         return True
-    with open(img0, "rb") as f0, open(img1, "rb") as f1:
-        f0.seek(skip); f1.seek(skip)
-        while True:
-            a = f0.read(1 << 20); c = f1.read(1 << 20)
-            if a != c:
-                return True
-            if not a:
-                return False
+    if d0 == d1:
+        return False
+    nblk = len(d0) // bs
+    for blk in range(nblk):
+        a = d0[blk * bs:(blk + 1) * bs]
+        if a == d1[blk * bs:(blk + 1) * bs]:
+            continue
+        if blk == (1 if bs == 1024 else 0):
+            if bs == 1024 or a[:1024] + a[2048:] == d1[blk * bs:blk * bs + 1024] + d1[blk * bs + 2048:(blk + 1) * bs]:
+                continue
+            return True
+        if bpg and blk >= first and (blk - first) % bpg == 0:
+            continue
+        return True
+    return False
 
 
 def run_step(b, profile, op, img, work, prev_digest, tag):
@@ -368,8 +451,7 @@ def run_step(b, profile, op, img, work, prev_digest, tag):
     fsck = os.path.join(b, "e2fsck", "e2fsck")
     keep = img + ".pre"
     shutil.copyfile(img, keep)
-    sb0 = read_sb(img)
-    a0 = abstract(sb0)
+    sb0, a0 = abstract_img(img)
     line = {"e": "tune", "profile": profile, "op": op, "cmd": op_key(op), "rc": -1, "asked_f": 0, "asked_d": 0, "before": a0, "after": a0,
             "mid": a0, "changed": [], "fsck_req_rc": -1, "fsck_after_rc": -1, "tree_equal": -1, "consistent": -1, "nontrivial": 0, "sig": 0,
             "out": "", "fsck_out": ""}
@@ -384,26 +466,31 @@ def run_step(b, profile, op, img, work, prev_digest, tag):
         return line, prev_digest
     line["asked_d"] = 1 if "Please run e2fsck -fD on the filesystem" in txt else 0
     line["asked_f"] = 1 if "Please run e2fsck -f on the filesystem" in txt else 0
-    sbm = read_sb(img)
+    if not (line["asked_d"] or line["asked_f"]) and open(img, "rb").read() == open(keep, "rb").read():
+        # the request changed no byte of the image: same state as before, whose verdicts are already established
+        line.update(fsck_after_rc=0, consistent=1, tree_equal=1, noop=1)
+        os.unlink(keep)
+        return line, prev_digest
+    sbm, am = abstract_img(img)
     if sbm is None:
         line["consistent"] = 0; line["tree_equal"] = 0; line["fsck_out"] = "superblock magic lost"
         os.replace(keep, img)
         return line, prev_digest
-    line["mid"] = abstract(sbm)
+    line["mid"] = am
     if line["asked_d"] or line["asked_f"]:
         r2, o2, e2 = sh([fsck, "-fyD" if line["asked_d"] else "-fy", img], env=env, timeout=300)
         line["fsck_req_rc"] = r2
         if r2 not in (0, 1):
             line["fsck_out"] = (o2 + e2).decode("utf8", "replace")[-500:]
-    sb1 = read_sb(img)
+    sb1, a1 = abstract_img(img)
     if sb1 is None:
         line["consistent"] = 0; line["tree_equal"] = 0; line["fsck_out"] = "superblock magic lost"
         os.replace(keep, img)
         return line, prev_digest
-    line["after"] = abstract(sb1)
+    line["after"] = a1
     line["changed"] = changed_fields(sb0, sb1)
     line["changed_mid"] = changed_fields(sb0, sbm)
-    line["nontrivial"] = 1 if meta_changed(keep, img, a0["bs"]) else 0
+    line["nontrivial"] = 1 if meta_changed(keep, img, sb0) else 0
     r3, o3 = consistent(b, img)
     line["fsck_after_rc"] = r3
     line["consistent"] = 1 if r3 == 0 else 0
@@ -439,3 +526,279 @@ def run_sequence(args):
             if os.path.exists(p):
                 os.unlink(p)
     return lines
+
+
+# ------------------------------------------------------------------------------------------------------------------
+# universe (enumerated by the specification) and the check
+# ------------------------------------------------------------------------------------------------------------------
+FIXED = dict(DevRewriteSkipsOrphanFile="FALSE", DevJournalOffKeepsOrphanFile="FALSE", DevDirIndexOffNoFsck="FALSE")
+QUOTA_ENABLING = lambda op: ((op["k"] == "O" and ({"quota", "project"} & set(op["on"]))) or
+                             (op["k"] == "Q" and op["on"]))
+# e2fsck (the interim consistency oracle) does not count inline-data symlinks in its quota usage (e2fsck/pass1.c skips
+# check_blocks() for them), so it reports every correctly written quota file on such a filesystem as inconsistent.
+ORACLE_BLIND = {"inline": QUOTA_ENABLING}
+
+
+def load_universe(work):
+    out = os.path.join(work, "universe.json")
+    r = T.tlc(os.path.join(SPEC, "Emit_Tune.tla"), os.path.join(SPEC, "Emit_Tune.cfg"), workers=1, timeout=300, env={"OUT": out}, xmx="1g")
+    if not r.ok or not os.path.exists(out):
+        die_broken("TLC could not enumerate the request universe (Emit_Tune): %s\n%s" % (r.error, r.out[-1500:]))
+    u = json.load(open(out))
+    norm = lambda o: {"k": o["k"], "on": list(o["on"]), "off": list(o["off"]), "a": o["a"], "n": o["n"]}
+    allops = sorted((norm(o) for o in u["all"]), key=op_key)
+    structural = sorted((norm(o) for o in u["structural"]), key=op_key)
+    pair = sorted((norm(o) for o in u["pair"]), key=op_key)
+    triples = sorted(([norm(o) for o in t] for t in u["triples"]), key=lambda t: [op_key(o) for o in t])
+    keys = [op_key(o) for o in allops]
+    if len(set(keys)) != len(keys):
+        die_broken("request catalogue has duplicate command lines")
+    return allops, structural, pair, triples
+
+
+def excluded(profile, ops):
+    f = ORACLE_BLIND.get(profile)
+    return bool(f and any(f(o) for o in ops))
+
+
+def sequences(tier, profiles, allops, structural_ops, pair, triples, rng):
+    """List of (profile, [ops]).  thorough = the whole universe; quick = every single request on every profile, every
+    ordering of the seeded triples on a seeded third of the profiles, and a seeded sample of ordered pairs."""
+    seqs = []
+    structural = {op_key(o) for o in structural_ops}
+    tun_profiles = set(rng.sample(sorted(profiles), 3)) if tier == "quick" else set(profiles)
+    for p in profiles:
+        for o in allops:
+            if op_key(o) in structural or p in tun_profiles:
+                seqs.append((p, [o]))
+    tri = []
+    for p in profiles:
+        for t in triples:
+            for perm in itertools.permutations(t):
+                tri.append((p, list(perm)))
+    prs = []
+    for p in profiles:
+        for a in pair:
+            for c in pair:
+                prs.append((p, [a, c]))
+    if tier == "quick":
+        rng.shuffle(tri); rng.shuffle(prs)
+        # always keep the order-sensitive seed of the property text on the default ext4 profile
+        must = [x for x in tri if x[0] == "ext4_1k" and {op_key(o) for o in x[1]} == {"-O ^metadata_csum", "-U random", "-O metadata_csum"}]
+        tri = must + [x for x in tri if x not in must][:60]
+        prs = prs[:120]
+    seqs += tri + prs
+    return [s for s in seqs if not excluded(s[0], s[1])]
+
+
+def _run_lines(args):
+    module, cfg, path, n, timeout = args
+    r = T.tlc(module, cfg, workers=1, timeout=timeout, env={"TRACE": path}, xmx="3g")
+    bad = [int(x) for x in re.findall(r'<<"BADLINE", (\d+)>>', r.out)]
+    div = [int(x) for x in re.findall(r'<<"DIVERGE", (\d+)>>', r.out)]
+    complete = (r.rc == 0 and r.violated is None and r.error is None)
+    return dict(bad=bad, div=div, complete=complete, error=r.error or r.violated, tail=r.out[-2500:], distinct=r.distinct, generated=r.generated)
+
+
+def validate_lines(lines, cfg, work, chunk=150, timeout=900, tag="l"):
+    """tracecheck.validate_lines + the DIVERGE channel (stateless per-line oracle, BADLINE keeps scanning)."""
+    module = os.path.join(SPEC, "Trace_Tune.tla")
+    tasks, spans = [], []
+    for ci, i in enumerate(range(0, len(lines), chunk)):
+        p = os.path.join(work, "%s%05d.ndjson" % (tag, ci))
+        part = lines[i:i + chunk]
+        with open(p, "w") as f:
+            for ln in part:
+                f.write(ln + "\n")
+        tasks.append((module, cfg, p, len(part), timeout)); spans.append(i)
+    with cf.ThreadPoolExecutor(max_workers=4) as ex:
+        res = list(ex.map(_run_lines, tasks))
+    bad, div, broken, d, g = [], [], [], 0, 0
+    for base, r in zip(spans, res):
+        d += r["distinct"]; g += r["generated"]
+        if not r["complete"]:
+            broken.append(r); continue
+        bad += [base + k - 1 for k in r["bad"]]
+        div += [base + k - 1 for k in r["div"]]
+    return dict(bad=sorted(set(bad)), div=sorted(set(div)), broken=broken, distinct=d, generated=g)
+
+
+TRACE_KEYS = ("e", "profile", "op", "cmd", "rc", "asked_f", "asked_d", "before", "mid", "after", "changed", "fsck_req_rc", "fsck_after_rc",
+              "tree_equal", "consistent", "nontrivial", "seq", "step")
+
+
+def why_bad(l):
+    w = []
+    if l["fsck_after_rc"] != 0: w.append("e2fsck -fn exit %d" % l["fsck_after_rc"])
+    if l["tree_equal"] != 1: w.append("tree changed" + (" (%s)" % l["tree_err"] if l.get("tree_err") else ""))
+    if (l["asked_f"] or l["asked_d"]) and l["fsck_req_rc"] not in (0, 1): w.append("requested e2fsck exit %d" % l["fsck_req_rc"])
+    if not w:
+        d = {k: [l["before"][k], l["mid"][k], l["after"][k]] for k in l["before"] if not (l["before"][k] == l["mid"][k] == l["after"][k])}
+        w.append("superblock delta differs from Expected(op): changed fields %s, abstract delta %s" % (l["changed"], json.dumps(d, sort_keys=True)[:400]))
+    return "; ".join(w)
+
+
+def model_check(tier, ev, vd, basedir, profiles, work):
+    pf = os.path.join(work, "profiles.ndjson")
+    with open(pf, "w") as f:
+        for p in profiles:
+            sb, a = abstract_img(os.path.join(basedir, p + ".img"))
+            f.write(json.dumps({"profile": p, "state": a}, sort_keys=True) + "\n")
+    mod = os.path.join(SPEC, "MC_Tune.tla")
+    cfg = os.path.join(SPEC, "MC_Tune.cfg" if tier == "thorough" else "MC_Tune_quick.cfg")
+    r = T.tlc(mod, cfg, workers=4, timeout=2400, env={"PROFILES": pf}, xmx="4g")
+    ev.add_tlc(r, "MC_Tune (%s): every sequence of accepted requests from every starting profile; InvFeatureSet, InvRewriteAll" % os.path.basename(cfg))
+    if r.violated:
+        vd.violation("model:" + r.violated, "Tune model: %s violated with the repaired behaviour" % r.violated, {"tlc": r.out[-4000:]})
+    elif not r.ok:
+        die_broken("TLC failed on MC_Tune: %s\n%s" % (r.error, r.out[-1500:]))
+    # negative control: the literal (unrepaired) behaviour must violate the invariants -- the invariants are not vacuous
+    r2 = T.tlc(mod, os.path.join(SPEC, "MC_Tune_literal.cfg"), workers=4, timeout=1200, env={"PROFILES": pf}, xmx="4g")
+    ev.cov["literal_model_counterexample"] = r2.violated or "none"
+    if not r2.violated:
+        die_broken("MC_Tune_literal (Dev* = TRUE) found no counterexample: the invariants do not bind (%s)" % (r2.error,))
+
+
+def _t(what, t0):
+    if os.environ.get("VERIF_C11_DEBUG"):
+        sys.stderr.write("c11: %-12s %.1fs\n" % (what, time.time() - t0))
+
+
+def run(tier):
+    ev = Evidence(PID, tier, "model_checking")
+    vd = Verdict(PID, ev)
+    kf = os.path.join(VERIF, "fixes", "C11_known_findings.txt")
+    if os.path.exists(kf):
+        for ln in open(kf):
+            ln = ln.strip()
+            if ln.startswith("{"):
+                d = json.loads(ln)
+                if d.get("property") == PID:
+                    vd.known[d["key"]] = d
+    work = fast_tmp()
+    try:
+        try:
+            b = build.build()
+        except RuntimeError as e:
+            die_broken(str(e))
+        basedir, meta = mkbase.base_images(b)
+        profiles = sorted(p for p, i in meta.items() if i.get("ok"))
+        if len(profiles) < 10:
+            die_broken("only %d usable base images: %s" % (len(profiles), {p: i.get("fsck_out", i.get("mke2fs_err", ""))[-200:] for p, i in meta.items() if not i.get("ok")}))
+        allops, structural, pair, triples = load_universe(work)
+        with cf.ThreadPoolExecutor(max_workers=2) as bg:
+            mc = bg.submit(model_check, tier, ev, vd, basedir, profiles, work)
+            rng = random.Random(seed())
+            seqs = sequences(tier, profiles, allops, structural, pair, triples, rng)
+            digs = {}
+            for p in profiles:
+                dg, n, err = tree_digest(b, os.path.join(basedir, p + ".img"), work, "base_" + p)
+                if err:
+                    die_broken("tree digest of base image %s failed: %s" % (p, err))
+                digs[p] = dg
+            t_run = time.time()
+            with cf.ThreadPoolExecutor(max_workers=JOBS) as ex:
+                res = list(ex.map(run_sequence, [(b, basedir, p, ops, work, i, digs[p]) for i, (p, ops) in enumerate(seqs)]))
+            _t("tool runs", t_run)
+            mc.result()
+            _t("+ model", t_run)
+        lines = [l for r in res for l in r]
+        sig = [l for l in lines if l["sig"]]
+        jl = [json.dumps({k: l[k] for k in TRACE_KEYS}, sort_keys=True) for l in lines]
+        t_val = time.time()
+        out = validate_lines(jl, os.path.join(SPEC, "Trace_Tune.cfg"), work)
+        _t("trace TLC", t_val)
+        if out["broken"]:
+            die_broken("TLC failed on a trace chunk: %s\n%s" % (out["broken"][0]["error"], out["broken"][0]["tail"][-1500:]))
+        ev.cov["states"] += out["distinct"]; ev.cov["transitions"] += out["generated"]
+        bad = set(out["bad"])
+        # confirmation: re-run every behaviour that contains a rejected line and validate the re-runs again (one TLC batch)
+        confirmed = []
+        if bad:
+            t_conf = time.time()
+            order = sorted(bad)
+            with cf.ThreadPoolExecutor(max_workers=JOBS) as ex:
+                agains = list(ex.map(run_sequence, [(b, basedir, seqs[lines[bi]["seq"]][0], seqs[lines[bi]["seq"]][1], work, 900000 + bi,
+                                                      digs[seqs[lines[bi]["seq"]][0]]) for bi in order]))
+            flat, pos = [], {}
+            for bi, again in zip(order, agains):
+                a2 = [x for x in again if x["step"] == lines[bi]["step"]]
+                if not a2:
+                    die_broken("rejected line %s / %s did not reproduce (sequence ended earlier on the re-run)" % (lines[bi]["profile"], lines[bi]["cmd"]))
+                pos[bi] = len(flat) + again.index(a2[0])
+                flat += again
+            o2 = validate_lines([json.dumps({k: x[k] for k in TRACE_KEYS}, sort_keys=True) for x in flat], os.path.join(SPEC, "Trace_Tune.cfg"), work, tag="conf")
+            if o2["broken"]:
+                die_broken("TLC failed while confirming: %s" % o2["broken"][0]["error"])
+            for bi in order:
+                if pos[bi] not in o2["bad"]:
+                    die_broken("rejected line %s / %s was accepted on the re-run (non-deterministic observation)" % (lines[bi]["profile"], lines[bi]["cmd"]))
+                confirmed.append((bi, flat[pos[bi]]))
+            _t("confirm", t_conf)
+        for bi, l in confirmed:
+            p, ops = seqs[lines[bi]["seq"]]
+            hist = [op_key(o) for o in ops[:l["step"] + 1]]
+            key = "%s|%s" % (p, " ; ".join(hist))
+            vd.violation(key, "tune2fs on profile %s: %s -> %s" % (p, " ; ".join(hist), why_bad(l)),
+                         {"profile": p, "ops": ops[:l["step"] + 1], "line": {k: l[k] for k in TRACE_KEYS}, "out": l["out"], "fsck_out": l["fsck_out"]})
+        for l in sig:
+            vd.violation("%s|signal|%s" % (l["profile"], l["cmd"]), "tune2fs died on a signal: %s %s" % (l["profile"], l["cmd"]), {"line": {k: l[k] for k in TRACE_KEYS}})
+        acc = [l for l in lines if l["rc"] == 0]
+        ev.cov["evaluations"] = len(lines)
+        ev.cov["sequences"] = len(seqs)
+        ev.cov["accepted_requests"] = len(acc)
+        ev.cov["refused_requests"] = len(lines) - len(acc)
+        ev.cov["refused_but_image_modified"] = sum(1 for l in lines if l["rc"] != 0 and l.get("restored"))
+        ev.cov["asked_for_e2fsck"] = sum(1 for l in acc if l["asked_f"] or l["asked_d"])
+        ev.cov["model_divergences_on_acceptance"] = [lines[i]["profile"] + "|" + lines[i]["cmd"] for i in out["div"]][:40]
+        ev.cov["traces_validated_against_impl"] = len(seqs) - len({lines[i]["seq"] for i in bad})
+        for l in acc:
+            if l["nontrivial"]:
+                ev.nontrivial((l["profile"], l["cmd"], tuple(l["before"]["feats"]), l["before"]["uuid"], l["before"]["isz"]))
+        ev.cov["rule"] = ("universe = Tune!AllOps (146 requests) x 14 populated base images, every ordering of Tune!TripleSeeds, ordered pairs over "
+                          "Tune!PairOps (quick: seeded sample of pairs and triples); non-trivial = accepted request that rewrote at least one "
+                          "metadata object other than the superblock copies (image bytes differ outside them); distinct by (profile, request, "
+                          "feature set before, uuid class, inode size)")
+        for l in [x for x in acc if x["nontrivial"]][:4]:
+            ev.sample({"profile": l["profile"], "cmd": l["cmd"], "asked": [l["asked_f"], l["asked_d"]], "changed": l["changed"],
+                       "features_before": l["before"]["feats"], "features_after": l["after"]["feats"], "fsck_after_rc": l["fsck_after_rc"], "tree_equal": l["tree_equal"]})
+        ev.assumptions = [
+            "every request runs on an unmounted image that was checked at the fixed fake time (check_fsck_needed preconditions hold unless a previous request of the sequence broke them: -E force_fsck)",
+            "tree equality observer = scratch-built debugfs (rdump + ls -p + stat + ea_list digest); consistency observer = e2fsck -fn exit 0 (both isolated in one function each, to be swapped for reader/ext4read.py)",
+            "requests that enable quota accounting on profile `inline` are not run: e2fsck does not count inline-data symlinks in quota usage (pass1.c), so the interim oracle rejects correct quota files there",
+            "a refused request carries no obligation (DESIGN 8 rule 1); the image is restored and the sequence continues; refusals that the model does not predict are listed in coverage.model_divergences_on_acceptance",
+            "external journals (-J device=), mounted filesystems, -z undo files, -f, -E clear_mmp/encoding, multiple options in one invocation are outside the universe",
+            "the e2fsck run tune2fs asks for may put large_file back (data dependent); otherwise it may touch only state/lastcheck/mount count/free counts/journal backup fields",
+        ]
+        return vd.finish()
+    finally:
+        shutil.rmtree(work, ignore_errors=True)
+
+
+def replay(path):
+    d = json.load(open(path))
+    rp = d.get("replay", d)
+    work = fast_tmp()
+    try:
+        b = build.build()
+        basedir, meta = mkbase.base_images(b)
+        p, ops = rp["profile"], rp["ops"]
+        dg, n, err = tree_digest(b, os.path.join(basedir, p + ".img"), work, "base")
+        lines = run_sequence((b, basedir, p, ops, work, 0, dg))
+        jl = [json.dumps({k: l[k] for k in TRACE_KEYS}, sort_keys=True) for l in lines]
+        out = validate_lines(jl, os.path.join(SPEC, "Trace_Tune.cfg"), work)
+        for l in lines:
+            print("%s  %s: rc=%d asked=%d%d requested-fsck=%d e2fsck-fn=%d tree_equal=%d changed=%s" % (p, l["cmd"], l["rc"], l["asked_f"], l["asked_d"],
+                  l["fsck_req_rc"], l["fsck_after_rc"], l["tree_equal"], l["changed"]))
+            if l["fsck_out"]:
+                print("    " + l["fsck_out"].replace("\n", "\n    ")[-600:])
+        if out["broken"]:
+            die_broken("TLC failed: %s" % out["broken"][0]["error"])
+        print("by hand: cp %s/%s.img x.img; " % (basedir, p) + "; ".join("tune2fs %s x.img" % op_key(o) for o in ops) + "; e2fsck -fn x.img")
+        if out["bad"]:
+            print("VIOLATION property=%s replay=%s  (%s)" % (PID, path, why_bad(lines[out["bad"][0]])))
+            return 1
+        print("replay accepted by Trace_Tune")
+        return 0
+    finally:
+        shutil.rmtree(work, ignore_errors=True)
